@@ -447,13 +447,13 @@ KIND_OF_CLASS = {"AllPredicate": "all", "AlwaysFalsePredicate": "false", "Always
 RENDERED_KEYS = set(KIND_OF_CLASS.values())
 
 CONST_NS = {"datetime": datetime.datetime, "UUID": uuid.UUID, "Decimal": decimal.Decimal, "nan": float("nan"), "inf": float("inf"),
-            "is_int_p": SP.is_int_p, "len": len, "OBJ": object()}
+            "is_int_p": SP.is_int_p, "len": len, "OBJ": object(), "LOCK": __import__("threading").Lock()}
 # (python source of the constant, json.dumps accepts it, it survives a dumps/loads round trip)
 CONSTS = [("0", 1, 1), ("1", 1, 1), ("-7", 1, 1), ("2.5", 1, 1), ("10**30", 1, 1), ("True", 1, 1), ("False", 1, 1), ("None", 1, 1),
           ("'a'", 1, 1), ("''", 1, 1), ("'left'", 1, 1), ("'caf\\u00e9 \"q\"'", 1, 1), ("[1, 'a', None]", 1, 1), ("{'k': [1, 2]}", 1, 1),
           ("{'left': 1, 'right': 2}", 1, 1), ("[]", 1, 1), ("{}", 1, 1), ("(1, 2)", 1, 0), ("{1: 'x'}", 1, 0), ("nan", 1, 0), ("inf", 1, 0),
           ("{1, 2}", 0, 0), ("frozenset()", 0, 0), ("1j", 0, 0), ("b'x'", 0, 0), ("datetime(2020, 1, 1)", 0, 0), ("UUID(int=5)", 0, 0),
-          ("Decimal('1.5')", 0, 0), ("OBJ", 0, 0), ("is_int_p", 0, 0), ("len", 0, 0), ("[1, {2}]", 0, 0), ("range(3)", 0, 0)]
+          ("Decimal('1.5')", 0, 0), ("OBJ", 0, 0), ("[OBJ]", 0, 0), ("{'k': [OBJ, 1]}", 0, 0), ("[LOCK]", 0, 0), ("{'lock': LOCK}", 0, 0), ("is_int_p", 0, 0), ("len", 0, 0), ("[1, {2}]", 0, 0), ("range(3)", 0, 0)]
 CONST_FLAGS = {s: (d, r) for s, d, r in CONSTS}
 ORDERED = ["0", "1", "-7", "2.5", "'a'", "''", "datetime(2020, 1, 1)", "UUID(int=5)"]
 HASHABLE = ["0", "1", "2.5", "True", "None", "'a'", "(1, 2)", "1j", "frozenset()"]
